@@ -266,7 +266,7 @@ Proof.
   intros W L. unfold recurse_out.
   destruct (sf_ty g) as [| |e|e nm| |k v nm| | | |] eqn:T; simpl in W, L; try discriminate.
   - destruct e; simpl in *; try discriminate; try reflexivity.
-    destruct (negb (should_recurse m)); reflexivity.
+    destruct (negb (should_recurse m)); [reflexivity|]. destruct ptr_recv; reflexivity.
   - simpl. destruct (kind_struct e); [discriminate | reflexivity].
   - reflexivity.
 Qed.
